@@ -731,7 +731,7 @@ struct ReplyWorld : World {
 		// classify a datagram sent by `side`: reply to a request of the other side, or one of side's own requests
 		auto classify = [&](int side, const Bytes &d, bool &reply) -> CReq * {
 			reply = false;
-			if (d.size() < idlen) return 0;
+			if (d.size() < idlen || d.empty()) return 0;
 			uint64_t id = d[0] & 0x7f; for (unsigned k = 1; k < idlen; ++k) id = (id << 8) | d[k];
 			if (d[0] & 0x80) { reply = true; CReq *q = 0;      // ids are reused once a connection forgot its commands: prefer the request that still waits for its answer
 				for (auto &r : C.peer[side ^ 1].sent) if (r.cid == id && r.cid && (!q || r.handled > r.replies_made)) q = &r; return q; }
@@ -751,13 +751,19 @@ struct ReplyWorld : World {
 				if (!reply) { if (!q) fail("invented", "%s sent a datagram that is neither a reply nor one of its requests (%zu bytes [%s])", C.peer[side].name, d.size(), hex(d, 16).c_str()); continue; }
 				if (!q) fail("foreign-id", "%s sent a reply whose id no request of the peer carries [%s]", C.peer[side].name, hex(d, 12).c_str());
 				if (q->transport_gone) fail("wrong-requester", "the answer to request r%u went out on a socket the connection was given after the request had arrived", q->serial);
-				if (q->replies_made == q->handled && C.discards[side] && d.size() == idlen) { ++q->handled; q->discarded = true; }     // answered by a dispatch without handler
 				if (++q->replies_made > q->handled) fail("second-reply", "request r%u was dispatched %d time(s) but %d replies went out", q->serial, q->handled, q->replies_made);
 			}
 		};
 		auto serve = [&](int side, AllocFault af, bool discard = false) -> int {
 			DPeer &P = D[side]; int d = 0; uint64_t failn = af.n; if (discard) { ++C.discards[side]; st.hit("probe:dispatch_without_handler"); }
 			for (int guard = 0; guard < 16; ++guard) {
+				// a dispatch without handler does not tell the harness what it consumed: look at the datagram it is about to receive
+				if (discard) {
+					Bytes dg; bool have = false;
+					if (P.con->out.state & 0x20) { const buffer *b = *reinterpret_cast<buffer * const *>(&P.con->out.buf); if (b) { dg.assign((const uint8_t *) (b + 1), (const uint8_t *) (b + 1) + b->_used); have = true; } }   // received earlier, not yet dispatched
+					else if (!simio::dchan(P.rchan)->avail.empty()) { dg = simio::dchan(P.rchan)->avail.front(); have = true; }
+					if (have) { bool rep; CReq *pq = classify(side ^ 1, dg, rep); if (pq && !rep && pq->cid) { ++pq->handled; pq->discarded = true; } }
+				}
 				int n; { Sut s; n = P.in->next(POLLIN); }
 				if (!(P.con->out.state & 0x20 /* received */) && n <= 0 && simio::dchan(P.rchan)->avail.empty()) break;
 				std::vector<int> b0 = snapshot(0), b1 = snapshot(1);
